@@ -1264,6 +1264,43 @@ def gt_aliasnorm(ctx: Ctx) -> RuleResult:
                               "users may name nodes by reference, tag or id; a list that is not passed through the alias resolver is "
                               "compared with node ids as is: tags and node references select nothing or raise", norm_src(call))
     r.require(n >= 6, f"only {n} selection arguments reaching make_subgraph")
+    # resolution is not idempotent (a tag wins over an id of the same value): what was resolved is never resolved again
+    RES = ("get_multiple_nodes_aliases", "alias_to_ids")
+    resolved_fields: Dict[str, Set[str]] = {}
+    for f in ctx.funcs():
+        if f.cls is None:
+            continue
+        for x in iter_own_nodes(f.node):
+            if isinstance(x, ast.Assign) and isinstance(x.targets[0], ast.Attribute) and dotted(x.targets[0].value) == "self" \
+                    and isinstance(x.value, ast.Call) and isinstance(x.value.func, ast.Attribute) and x.value.func.attr in RES:
+                for ci in ctx.P.subclasses(f.cls.qualname):
+                    resolved_fields.setdefault(ci.qualname, set()).add(x.targets[0].attr)
+    for f in ctx.funcs():
+        if f.cls is None or f.cls.qualname not in resolved_fields or f.module.name.endswith("_twzsa_control"):
+            continue
+        flds = resolved_fields[f.cls.qualname]
+        for call, q in ctx.calls_in(f):
+            if not (isinstance(call.func, ast.Attribute) and call.func.attr in RES and call.args):
+                continue
+            a = call.args[0]
+            src = None
+            if isinstance(a, ast.Attribute) and dotted(a.value) == "self" and a.attr in flds:
+                src = a.attr
+            elif isinstance(a, ast.Name):
+                for d in ctx.reaching_defs(f, a.id, call):
+                    if isinstance(d, (ast.For, ast.AsyncFor)) and isinstance(d.iter, ast.Attribute) and dotted(d.iter.value) == "self" \
+                            and d.iter.attr in flds:
+                        src = d.iter.attr
+            if src is None:
+                continue
+            # the statement that performs the first resolution (self.x = resolve(self.x)) is fine
+            first = any(isinstance(x, ast.Assign) and x.value is call and isinstance(x.targets[0], ast.Attribute)
+                        and x.targets[0].attr == src for x in iter_own_nodes(f.node))
+            r.ob(first, {"resolution of": f"self.{src}", "in": f.short, "first resolution": first})
+            if not first:
+                r.violate(f"{f.short}: ids already resolved from aliases (self.{src}) are resolved again", f.loc(call),
+                          "alias resolution tries 'tag' before 'id': an id that happens to equal another node's tag resolves to that other "
+                          "node the second time, so the wrong nodes are excluded / selected", norm_src(call))
     return r
 
 
